@@ -23,7 +23,7 @@ BUDGET = {"quick": 1200, "thorough": 16000}
 MIN_NONTRIVIAL = {"quick": 200, "thorough": 2000}
 REQUIRED_FUNCTIONS = ["listener.py:BlackbirdListener.exitInclude", "listener.py:BlackbirdListener.exitStatement", "__init__.py:load"]
 FUNCTIONS = REQUIRED_FUNCTIONS + ["program.py:BlackbirdProgram.__call__"]
-REQUIRED_TAGS = ["nested>=2", "repeat-call", "template-call", "cwd:main-dir", "cwd:parent", "cwd:root", "cwd:unrelated", "path:relative",
+REQUIRED_TAGS = ["nested>=2", "repeat-call", "template-call", "cwd:main-dir", "cwd:parent", "cwd:root", "cwd:unrelated", "cwd:decoy", "path:relative",
                  "path:absolute", "include:subdir", "include:repeated-line", "include:abs+rel", "neg:arity", "neg:keywords", "include:symlink-dotdot", "call-in-loop", "template-call-in-loop", "include:gate-named-like-another-subroutine", "equal-but-different-values", "keyword-order-shuffled", "same-values-other-keywords", "call-transitively-included", "include:all-absolute"]
 ASSUMPTIONS = ["reference inlining rule: DESIGN Appendix A rule 11 (sorted(sub.modes) -> call modes, parameters bound from keywords)",
                "files are ASCII; sub-programs contain no measured registers (the statement renames modes only)"]
@@ -66,6 +66,9 @@ def make_sub(rng, g, name, modeset, template, child=None, regref_args=False):
         # include does to the registers of a sub-program is not part of C07's statement)
         for _ in range(rng.choice([1, 2])):
             rs = rng.sample([0, 1, 2, 3, 5, 7, 10, 12, 31, 100], rng.choice([2, 2, 3, 4]))
+            if len(ms) >= 2 and rng.random() < 0.6:
+                # registers of the sub-program's own modes
+                rs = rng.sample(ms, min(len(ms), rng.choice([2, 2, 3])))
             e = "q%d" % rs[0]
             for k_, r_ in enumerate(rs[1:]):
                 e += rng.choice([" - %d*q%d", " + %d*q%d", " * %d*q%d"]) % (k_ + 2, r_)
@@ -100,6 +103,7 @@ def build(rng, g, symbolic_args=False, regref_args=False):
     main_dir = rng.choice(["", "", "proj", "a/b"])
     subs = []  # (name, relpath from main dir, text path, nmodes, params, depth)
     deep = []  # programs included by an included file (visible in the main script as well)
+    modesets = {}
     nsubs = rng.choice([1, 1, 2, 2, 3])
     for s in range(nsubs):
         depth = rng.choice([1, 1, 1, 2, 3, 4])
@@ -133,6 +137,7 @@ def build(rng, g, symbolic_args=False, regref_args=False):
             except (OOD, refsem.IllFormed, refsem.RefSyntax) as e:
                 raise RuntimeError("sub-program not valid: %s" % e)
             prev = (name, path, len(ref.modes), ref.param_names())
+            modesets[name] = sorted(ref.modes)
             if level > 1 and len(ref.modes) > 0:
                 deep.append((name, path, len(ref.modes), ref.param_names(), level))
         name, path, nmodes, params = prev
@@ -192,6 +197,11 @@ def build(rng, g, symbolic_args=False, regref_args=False):
             tags.add("repeat-call")
         for _ in range(ncalls):
             modes = rng.sample(range(0, 30), nmodes)
+            if regref_args and nmodes >= 2 and rng.random() < 0.5 and len(modesets.get(name, [])) == nmodes:
+                # applied to a permutation of its own modes
+                modes = list(modesets[name])
+                while modes == modesets[name]:
+                    rng.shuffle(modes)
             kw = ""
             if params:
                 tags.add("template-call")
@@ -355,7 +365,7 @@ def ref_of(files, main_path, root):
         return ("refbug", str(e))
 
 
-CWDS = ("cwd:main-dir", "cwd:parent", "cwd:root", "cwd:unrelated")
+CWDS = ("cwd:main-dir", "cwd:parent", "cwd:root", "cwd:unrelated", "cwd:decoy")
 
 
 def load_under(root, main_path, cwd_kind, path_kind, other):
@@ -368,6 +378,8 @@ def load_under(root, main_path, cwd_kind, path_kind, other):
         cwd = os.path.dirname(os.path.dirname(main_abs)) if os.path.dirname(main_path) else os.path.dirname(root)
     elif cwd_kind == "cwd:root":
         cwd = "/"
+    elif cwd_kind == "cwd:decoy":
+        cwd = os.path.join(other, "decoy")
     else:
         cwd = other
     arg = main_abs if path_kind == "path:absolute" else os.path.relpath(main_abs, cwd)
@@ -381,12 +393,41 @@ def load_under(root, main_path, cwd_kind, path_kind, other):
         os.chdir(old)
 
 
+def make_decoys(files, other):
+    """A working directory that holds *other* programs under every relative
+    include path written anywhere in the tree (same program name, other
+    operations): whoever resolves an include against the process working
+    directory instead of the including file finds these."""
+    import re
+
+    decoy = os.path.join(other, "decoy")
+    os.makedirs(decoy, exist_ok=True)
+    for rel, text in files.items():
+        if rel == "__symlinks__":
+            continue
+        for m in re.finditer(r'^include "([^"@][^"]*)"', text, re.M):
+            written = m.group(1)
+            target = os.path.normpath(os.path.join(os.path.dirname(rel), written))
+            tt = files.get(target)
+            if not isinstance(tt, str):
+                continue
+            nm = re.search(r"^name (\S+)", tt, re.M)
+            dest = os.path.normpath(os.path.join(decoy, written))
+            if not nm or not dest.startswith(decoy + os.sep):
+                continue
+            os.makedirs(os.path.dirname(dest), exist_ok=True)
+            with open(dest, "w", encoding="ascii") as f:
+                f.write("name %s\nversion 1.0\n\nDecoyGate(0.123) | 0\n" % nm.group(1))
+
+
 def check_tree(ctx, files, main_path, info, rng, negative=None):
     root = tempfile.mkdtemp(prefix="bbv-c07-")
     other = tempfile.mkdtemp(prefix="bbv-c07o-")
     try:
         root = os.path.realpath(root)
+        other = os.path.realpath(other)
         materialise(root, files)
+        make_decoys(files, other)
         k = ref_of(files, main_path, root)
         witness = {"files": files, "main": main_path}
         payload = repr(sorted((k_, v_ if isinstance(v_, str) else sorted(v_.items())) for k_, v_ in files.items()))
